@@ -170,7 +170,9 @@ pub fn roundtrip_case(rng: &mut Rng, ctx: &mut Ctx, all_cuts: bool) {
                     ctx.violation("data-after-trailers", "DATA frame after trailers".into());
                 }
                 if d.is_empty() {
-                    ctx.violation("empty-data-frame", format!("frame {} is an empty DATA frame", i));
+                    // legal in HTTP/2 and not constrained by the property: observed, not judged
+                    let _ = i;
+                    ctx.count("observed.empty_data_frames_from_encoder");
                 }
                 n_data += 1;
                 off += d.len();
@@ -206,7 +208,8 @@ pub fn roundtrip_case(rng: &mut Rng, ctx: &mut Ctx, all_cuts: bool) {
         frames.iter().map(|f| f.start).chain(std::iter::once(wire.len())).collect();
     for b in &boundaries {
         if !starts.contains(b) {
-            ctx.violation("frame-cut-mid-message", format!("DATA frame ends at byte {} which is inside a message", b));
+            // how the encoder batches its output is free: observed, not judged
+            ctx.count("observed.data_frame_boundaries_inside_a_message");
         }
     }
     for (i, (f, p)) in frames.iter().zip(&payloads).enumerate() {
